@@ -5,4 +5,4 @@ From TK Require Import Mat_Sums Mat_Core Mat_Qc Pencil_Model Pencil_Spec.
 Definition run_construct_qc := @run_construct Qc QcOps.
 Definition seen_tables_qc := @seen_tables Qc QcOps.
 Definition run_project_qc := @run_project Qc QcOps.
-Extraction "c10_model.ml" run_construct_qc run_project_qc spec_construct_b ref_pencil seen_tables_qc Q2Qc.
+Extraction "c10_model.ml" run_construct_qc run_project_qc spec_construct_b spec_full_b ref_pencil seen_tables_qc Q2Qc.
